@@ -130,8 +130,8 @@ func classifyGoroutines(dump string) (blocked, active int, sample string) {
 		if !strings.HasPrefix(g, "goroutine ") {
 			continue
 		}
-		if !strings.Contains(g, "kelindar/column") || strings.Contains(g, "withWatchdog") {
-			continue
+		if !strings.Contains(g, "kelindar/column") || strings.Contains(g, "main.withWatchdog(") {
+			continue // not a workload goroutine / the watchdog itself (the round's own goroutine runs withWatchdog.func1 and counts)
 		}
 		head := g
 		if j := strings.Index(g, "\n"); j >= 0 {
